@@ -490,6 +490,12 @@ class AST2SCFGTransformer:
 
     def handle_function_def(self, node: ast.FunctionDef) -> None:
         """Handle a function definition."""
+        # Only the function that is being transformed itself can be handled,
+        # the body of a nested function must not be inlined.
+        if node is not self.tree[0]:
+            raise NotImplementedError(
+                f"Nested function definition {node.name} not implemented"
+            )
         # Insert implicit return None, if the function isn't terminated. May
         # end up being an unreachable block if all other paths through the
         # program already call return.
